@@ -92,7 +92,7 @@ func (o *vOrd) handlers() *verifHandlers {
 		Duration: func(name string, d time.Duration) time.Duration {
 			switch name {
 			case "abaco.readPeriod":
-				return 3 * time.Millisecond
+				return 10 * time.Millisecond // also used with real UDP, where the sender cannot be throttled: 1 s of slack
 			case "lancero.readPeriod":
 				return 3 * time.Millisecond
 			case "abaco.panicTime":
@@ -140,6 +140,7 @@ type vLife struct {
 	config  func() error
 	feed    func(on bool) // hardware sending or silent (where it applies)
 	selfEnd func()        // make the source end itself now (where it applies)
+	released func() bool  // have the (scripted) devices been released? (nil where it cannot be observed)
 	close   func()
 }
 
@@ -259,7 +260,14 @@ func vMakeLife(c *vCase, kind string, port int) *vLife {
 			s := &vAbScript{fpp: 8, bits: 16, nSample: 6, nprod: 2}
 			s.groups = []vAbGroup{{first: 0, nchan: 2, snBase: 100, producer: 0, lost: map[int]bool{}}, {first: 8, nchan: 1, snBase: 5000, producer: 1, lost: map[int]bool{}}}
 			run := &vAbRun{s: s, nextIdx: []int{6, 6}, delivered: make([][]int, 2), calls: make([]int, 2), starts: make([]int, 2), stops: make([]int, 2)}
+			run.backlog = func() int { return len(as.buffersChan) }
+			run.stopDelay = 25 * time.Millisecond
 			as.producers = []PacketProducer{&vAbProducer{run: run, id: 0}, &vAbProducer{run: run, id: 1}}
+			l.released = func() bool {
+				run.mu.Lock()
+				defer run.mu.Unlock()
+				return run.stops[0] >= 1 && run.stops[1] >= 1
+			}
 			return nil
 		}
 		l.workers = []string{"AbacoSource).readerMainLoop", "AbacoSource).getNextBlock"}
@@ -313,6 +321,15 @@ func vMakeLife(c *vCase, kind string, port int) *vLife {
 		failMode := 0 // 0 healthy, 1 collector refuses in StartRun, 2 no data while sampling
 		l.config = func() error {
 			rc = &vRefusingCard{vCard: vEndlessCard(3, 2, uint64(r.Int63()))}
+			rc.vCard.backlog = func() int { return len(ls.buffersChan) }
+			rc.vCard.stopDelay = 25 * time.Millisecond
+			card := rc.vCard
+			base := 0
+			l.released = func() bool {
+				card.mu.Lock()
+				defer card.mu.Unlock()
+				return card.stopped-base >= 2 // sampling stops the adapter once, the end of the run once more
+			}
 			switch failMode {
 			case 1:
 				rc.refuseRun = 1
@@ -389,6 +406,7 @@ type vLifeRun struct {
 	dir    string
 	hist   []string
 	dead   bool
+	running bool // the last Start succeeded and no Stop has returned since
 }
 
 func (x *vLifeRun) note(f string, a ...any) { x.hist = append(x.hist, fmt.Sprintf(f, a...)) }
@@ -450,6 +468,7 @@ func (x *vLifeRun) start(wantOK bool) bool {
 		}
 	}
 	x.c.Cov("starts_delivering_blocks", 1)
+	x.running = true
 	return true
 }
 
@@ -478,6 +497,14 @@ func (x *vLifeRun) stop(n int) {
 		return
 	}
 	x.c.Cov("stops_returned", n)
+	if x.l.released != nil && x.running {
+		if !x.l.released() {
+			x.fail("c10:devices-open-when-stop-returned", "all %d Stop calls have returned but the source's devices have not been released yet (a device that takes 25 ms to close): workers are still at work", n)
+			return
+		}
+		x.c.Cov("device_release_checks", 1)
+	}
+	x.running = false
 	if n > 1 {
 		x.c.Cov("concurrent_stop_groups", 1)
 	}
@@ -722,7 +749,7 @@ func init() {
 			Assumptions: []string{"Stop during Start at the DataSource level is not generated (the RPC layer cannot produce it and the code documents it as unsupported)", "a worker goroutine counts as leaked if it is still there with the same frames 3 s and again 4.5 s after the last Stop returned",
 				"sources whose Stop path discards their devices (Abaco, Roach) are configured again before every Start, as the RPC clients do"},
 			Guards: map[string]map[string]int{
-				"quick":    {"starts_delivering_blocks": 150, "stops_returned": 200, "after_stop_checks": 150, "concurrent_stop_groups": 15, "failed_starts": 8, "start_after_failed_start": 6, "stops_racing_self_termination": 8, "stops_after_self_termination": 8, "writing_started": 15, "final_restarts": 70, "distinct:ordering": 10},
+				"quick":    {"starts_delivering_blocks": 150, "stops_returned": 200, "after_stop_checks": 150, "concurrent_stop_groups": 15, "failed_starts": 8, "start_after_failed_start": 6, "stops_racing_self_termination": 8, "stops_after_self_termination": 8, "writing_started": 15, "final_restarts": 70, "device_release_checks": 30, "distinct:ordering": 10},
 				"thorough": {"starts_delivering_blocks": 1500, "failed_starts": 150, "distinct:ordering": 20},
 			}},
 	})
